@@ -411,7 +411,10 @@ def add_subscribers(b, inst, rng, raising=False, dynamic=False):
 
 def c14_script(seed, proto):
     rng = random.Random(seed)
-    inst = installation(proto, rng, n_acs=rng.randrange(1, 3), n_zones=rng.randrange(1, 5))
+    na, nz = rng.randrange(1, 3), rng.randrange(1, 5)
+    if proto == "at5" and seed % 9 == 0:
+        nz = 0        # a console without zones (echoed zone requests): refreshed after a reconnection like any other
+    inst = installation(proto, rng, n_acs=na, n_zones=nz)
     b = ClientBuilder(proto, rng)
     b.preamble()
     t = 0
@@ -740,7 +743,10 @@ def stalled_report(b, inst, rng):
 
 def c10_script(seed, proto, combos=None, subscribers=False, raising=False):
     rng = random.Random(seed)
-    inst = installation(proto, rng, n_acs=rng.randrange(1, 4), n_zones=rng.randrange(1, 7))
+    na, nz = rng.randrange(1, 4), rng.randrange(1, 7)
+    if proto == "at5" and seed % 9 == 0 and not subscribers:
+        nz = 0        # a console without zones (echoed zone requests)
+    inst = installation(proto, rng, n_acs=na, n_zones=nz)
     if rng.random() < 0.3:      # units already in an error state when the client initialises
         for a in inst["acs"]:
             if rng.random() < 0.6:
